@@ -1928,8 +1928,11 @@ impl Interpreter {
 
         for stmt in program.body.iter() {
             let specifier = match stmt {
-                Statement::Import(import) => Some(import.source.value.to_string()),
-                Statement::Export(export) => {
+                // `import type ...` / `export type ... from` are erased: they load nothing
+                Statement::Import(import) if !import.type_only => {
+                    Some(import.source.value.to_string())
+                }
+                Statement::Export(export) if !export.type_only => {
                     // Re-export from another module: export { foo } from "./bar"
                     export.source.as_ref().map(|s| s.value.to_string())
                 }
